@@ -7,7 +7,7 @@
    ended link a call blocked in its result select returns after at most four steps of its own
    waiter and itself — no step of any handler, peer, reader or transport is needed — with a non-nil
    error unless its waiter already holds a genuine error-free response. *)
-From Verif Require Import Base Link LinkProofs LinkInv16 LinkInvB LinkInvT LinkProgress.
+From Verif Require Import Base Link LinkProofs LinkInv16 LinkInvB LinkInvT LinkProgress LinkInvF.
 
 Theorem read_failure_ends_link :
   forall calls s n,
@@ -108,3 +108,27 @@ Proof.
   eexists. split; [exists [(Run TSetup, 0); (Env (EStart 0), 0); (Env (EFailReadRes 3%N), 0)]; vm_compute; reflexivity|].
   split; reflexivity.
 Qed.
+
+(* "the link has ended" always means "the table is closed": whenever a failure of any kind has been
+   noticed (a goroutine is inside setErr), reported (the fatal slot is written) or returned by Link,
+   the pending-call table is closed - so the two theorems above apply for every cause of the end *)
+Theorem ended_means_closed :
+  forall calls s,
+    lreachable fixed calls s ->
+    (fatal s <> None \/ (exists t e k, tget (threads s) t = Some (SetErrMid e k)) \/ (exists e, In (EvLinkReturn e) (evs s))) ->
+    bclosed s = true.
+Proof. exact ended_means_closed_lemma. Qed.
+Print Assumptions ended_means_closed.
+
+Theorem calls_return_once_the_link_has_ended :
+  forall calls s i st,
+    lreachable fixed calls s ->
+    (fatal s <> None \/ (exists t e k, tget (threads s) t = Some (SetErrMid e k)) \/ (exists e, In (EvLinkReturn e) (evs s))) ->
+    tget (threads s) (TCall i) = Some st ->
+    exists cs s' v e, length cs <= 6 /\ own_steps i cs /\ lrun fixed calls s cs = Some s' /\
+                      tget (threads s') (TCall i) = Some (CReturned v e) /\
+                      (e = None -> in_hand s i).
+Proof.
+  intros calls s i st Hr Hend Ht. eapply started_call_returns_lemma; eauto. eapply ended_means_closed_lemma; eauto.
+Qed.
+Print Assumptions calls_return_once_the_link_has_ended.
